@@ -4,6 +4,7 @@ package main
 // the trusted base and is listed in evidence when used.
 
 import (
+	"sync"
 	"fmt"
 	"go/token"
 	"go/types"
@@ -118,7 +119,11 @@ func allowedBody(fn *ssa.Function) bool {
 
 var opaqueTypes = map[string]types.Type{}
 
+var opaqueMu sync.Mutex
+
 func opaqueType(kind string) types.Type {
+	opaqueMu.Lock()
+	defer opaqueMu.Unlock()
 	if t, ok := opaqueTypes[kind]; ok {
 		return t
 	}
